@@ -73,6 +73,7 @@ def compiled_pattern(model, rname):
 
 
 def language_rules(ctx):
+    rx.prepare(ctx.model)
     pat = compiled_pattern(ctx.model, 'REGEX_GCODE_LINE')
     ok, cex, nstates = rx.prefix_total(pat)
     ctx.instance('C18.R1', ('dfa-states', nstates))
